@@ -706,4 +706,128 @@ example : RefHolds (.named (some ['v'])) ['v'] ∧
       (fun _ => false) .plain).res = .err := by
   refine ⟨Or.inl rfl, by decide, by decide⟩
 
+/-! ## execution contexts: the result does not depend on the wrapper -/
+
+/-- **The operation reads only the visible binding.**  Wrapping the expansion in any number of
+frames that do not bind the name — entering functions (however deep), a brace group, a loop body,
+`eval`, a sourced file, a trap handler, a temporary environment for other names — changes nothing:
+every operator yields the outcome it yields without the wrappers, for every state of the
+parameter, with nounset on or off. -/
+theorem context_wrapper_independent (ws : List Frame) (sc : Scopes) (n : Str) (nounset : Bool)
+    (m : Str → Bool) (op : Op) (hw : ∀ f ∈ ws, Frame.find f n = none) :
+    expandIn (ws ++ sc) n nounset m op = expandIn sc n nounset m op := by
+  have hv : visible (ws ++ sc) n = visible sc n := by
+    induction ws with
+    | nil => rfl
+    | cons f fs ih =>
+      have hf : Frame.find f n = none := hw f (by simp)
+      have := ih (fun g hg => hw g (by simp [hg]))
+      simp only [List.cons_append, visible, hf, this]
+  simp only [expandIn, hv]
+
+/-- **A local hides the global**: when the innermost frame binds the name (a `local`, the copy made
+by `local -a`, a temporary binding `v=x f`, a function's own positional list), the outcome is the
+one of that binding, whatever the outer frames hold — in particular a local that is unset makes
+`${v-w}` yield `w` even though a global `v` has a value. -/
+theorem local_hides_global (f : Frame) (g g' : Scopes) (n : Str) (p : Param) (nounset : Bool)
+    (m : Str → Bool) (op : Op) (hf : Frame.find f n = some p) :
+    expandIn (f :: g) n nounset m op = expandExpr p nounset m op ∧
+    expandIn (f :: g) n nounset m op = expandIn (f :: g') n nounset m op := by
+  simp [expandIn, visible, hf]
+
+example : expandIn [[(['v'], .named none)], [(['v'], .named (some ['G']))]] ['v'] true (fun _ => false)
+      (.test .useDefault false ['w']) = { res := .ok (ofStr ['w']) } ∧
+    expandIn [[(['z'], .named (some ['1']))], [(['v'], .named (some ['G']))]] ['v'] true (fun _ => false) .plain
+      = { res := .ok (ofStr ['G']) } := by decide
+
+private theorem stateAfter_none (p : Param) (o : Outcome) (h : o.assigned = none) : stateAfter p o = p := by
+  cases p <;> simp [stateAfter, h]
+
+/-- only `=` on a variable or an element assigns -/
+private theorem assigned_none (p : Param) (nounset : Bool) (m : Str → Bool) (op : Op)
+    (h : (∀ c w, op ≠ .test .assignDefault c w) ∨ (∀ v, p ≠ .named v) ∧ (∀ v ex, p ≠ .elem v ex)) :
+    (expandExpr p nounset m op).assigned = none := by
+  cases op with
+  | plain => simp only [expandExpr]; cases expandParam p false nounset <;> rfl
+  | len => simp only [expandExpr]; split <;> rfl
+  | sub off len => simp only [expandExpr]; cases expandParam p false nounset <;> rfl
+  | rm k hasPat => simp only [expandExpr]; cases expandParam p false nounset <;> rfl
+  | test k colon word =>
+    simp only [expandExpr]
+    cases expandParam p true nounset with
+    | none => rfl
+    | some e =>
+      simp only []
+      cases hta : testAction k colon (classify e) with
+      | param => rfl
+      | word => rfl
+      | error => rfl
+      | null => simp only []; split <;> rfl
+      | assign =>
+        have hk : k = .assignDefault := by
+          cases k <;> cases colon <;> cases hc : classify e <;> simp_all [testAction]
+        subst hk
+        rcases h with h | ⟨h1, h2⟩
+        · exact absurd rfl (h colon word)
+        · cases p with
+          | named v => exact absurd rfl (h1 v)
+          | elem v ex => exact absurd rfl (h2 v ex)
+          | pos v => rfl
+          | all vals star => rfl
+          | posAll vals star => rfl
+
+/-- when `=` assigns, it assigns the word and substitutes it -/
+private theorem assigned_some (p : Param) (nounset : Bool) (m : Str → Bool) (colon : Bool) (word x : Str)
+    (h : (expandExpr p nounset m (.test .assignDefault colon word)).assigned = some x) :
+    x = word ∧ (expandExpr p nounset m (.test .assignDefault colon word)).res = .ok (ofStr word) := by
+  simp only [expandExpr] at h ⊢
+  cases he : expandParam p true nounset with
+  | none => simp [he] at h
+  | some e =>
+    simp only [he] at h ⊢
+    cases hta : testAction .assignDefault colon (classify e) with
+    | param => simp [hta] at h
+    | word => simp [hta] at h
+    | error => simp [hta] at h
+    | null => simp only [hta] at h; split at h <;> simp at h
+    | assign =>
+      simp only [hta] at h ⊢
+      cases p <;> simp_all
+
+/-- `=` on a variable that already holds the word substitutes the word -/
+private theorem assign_on_word (p : Param) (nounset : Bool) (m : Str → Bool) (colon : Bool) (word : Str)
+    (hp : p = .named (some word) ∨ p = .elem (some word) true) :
+    (expandExpr p nounset m (.test .assignDefault colon word)).res = .ok (ofStr word) := by
+  have hcl : classify (ofStr word) = if word.isEmpty then .definedEmpty else .nonZero := by
+    cases word <;> simp [classify, ofStr]
+  rcases hp with rfl | rfl <;>
+    (simp only [expandExpr, expandParam, hcl]; cases word <;> cases colon <;> simp [testAction])
+
+/-- **A second evaluation in the same shell gives the same result**: after `${p op w}` has been
+evaluated (and, for `=`, has assigned), evaluating the same expansion again yields the same
+substitution or the same failure — for every operator, state, word and matcher. -/
+theorem reevaluation_stable (p : Param) (nounset : Bool) (m : Str → Bool) (op : Op) :
+    (expandExpr (stateAfter p (expandExpr p nounset m op)) nounset m op).res =
+      (expandExpr p nounset m op).res := by
+  cases ha : (expandExpr p nounset m op).assigned with
+  | none => rw [stateAfter_none _ _ ha]
+  | some x =>
+    have hop : ∃ c w, op = .test .assignDefault c w := by
+      apply Classical.byContradiction; intro hn
+      have := assigned_none p nounset m op (Or.inl (fun c w h => hn ⟨c, w, h⟩))
+      simp [this] at ha
+    obtain ⟨colon, word, rfl⟩ := hop
+    obtain ⟨rfl, hres⟩ := assigned_some p nounset m colon word x ha
+    rw [hres]
+    cases p with
+    | named v => exact assign_on_word _ nounset m colon x (Or.inl (by simp [stateAfter, ha]))
+    | elem v ex => exact assign_on_word _ nounset m colon x (Or.inr (by simp [stateAfter, ha]))
+    | pos v => exact absurd ha (by rw [assigned_none _ _ _ _ (Or.inr ⟨by simp, by simp⟩)]; simp)
+    | all vals star => exact absurd ha (by rw [assigned_none _ _ _ _ (Or.inr ⟨by simp, by simp⟩)]; simp)
+    | posAll vals star => exact absurd ha (by rw [assigned_none _ _ _ _ (Or.inr ⟨by simp, by simp⟩)]; simp)
+
+example : (expandExpr (.named none) true (fun _ => false) (.test .assignDefault true ['w'])).assigned = some ['w'] ∧
+    stateAfter (.named none) (expandExpr (.named none) true (fun _ => false) (.test .assignDefault true ['w'])) =
+      .named (some ['w']) := by decide
+
 end BrushVerif.C06
